@@ -203,6 +203,15 @@ Tins::PDU* pdu_from_flag(PDU::PDUType type, const uint8_t* buffer, uint32_t size
     };
 }
 
+Constants::Ethernet::e pdu_to_ether_type(const PDU& pdu) {
+    // PPPoE session and discovery packets use different ether types
+    if (pdu.pdu_type() == PDU::PPPOE) {
+        return (static_cast<const PPPoE&>(pdu).code() == 0) ? Constants::Ethernet::PPPOES
+                                                             : Constants::Ethernet::PPPOED;
+    }
+    return pdu_flag_to_ether_type(pdu.pdu_type());
+}
+
 Constants::Ethernet::e pdu_flag_to_ether_type(PDU::PDUType flag) {
     switch (flag) {
         case PDU::IP:
